@@ -60,6 +60,33 @@ def rcase(r, w):
     return bytes((c ^ 0x20) if (chr(c).isalpha() and r.random() < 0.5) else c for c in w)
 
 
+MISSPELL_FAMILIES = ["prefix", "prefix", "extension", "deletion", "transposition", "insertion"]
+
+
+def misspell(r, kw, forbidden, family=None):
+    """a misspelling of keyword kw (bytes) of one of the families; None if it would be a valid keyword
+    (forbidden: lower-case keywords that are valid in that place).  Returns (family, word)."""
+    fam = family or r.choice(MISSPELL_FAMILIES)
+    w = None
+    if fam == "prefix" and len(kw) > 1:
+        w = kw[:r.randint(1, len(kw) - 1)]                 # every proper prefix can be drawn
+    elif fam == "extension":
+        w = kw + bytes([r.choice(b"sxez1_")])
+    elif fam == "deletion" and len(kw) > 1:
+        i = r.randrange(len(kw)); w = kw[:i] + kw[i + 1:]
+    elif fam == "transposition" and len(kw) > 1:
+        i = r.randrange(len(kw) - 1); w = kw[:i] + kw[i + 1:i + 2] + kw[i:i + 1] + kw[i + 2:]
+    elif fam == "insertion":
+        i = r.randint(0, len(kw)); w = kw[:i] + bytes([r.choice(b"xQ_z")]) + kw[i:]
+    if not w or w.lower() == kw.lower() or w.lower() in forbidden or not re.match(rb"^[A-Za-z_]", w):
+        return None
+    return fam, w
+
+
+def all_prefixes(kw):
+    return [kw[:i] for i in range(1, len(kw))]
+
+
 def rws(r, n=3, allow_empty=False):
     k = r.randint(0 if allow_empty else 1, n)
     return bytes(r.choice(b" \t") for _ in range(k))
@@ -250,7 +277,15 @@ def gen_flat_case(r):
         i = r.randrange(len(lines))
         l = lines[i]
         st = len(l) - len(l.lstrip())
-        lines[i] = l[:st] + r.choice([b"x", b"_"]) + l[st:] if r.random() < 0.5 else l[:st + 1] + b"Q" + l[st + 1:]
+        m0 = re.match(rb"[A-Za-z_][A-Za-z0-9_]*", l[st:])
+        ms = misspell(r, m0.group(0), set(k.lower().encode() for k in keys)) if m0 else None
+        if ms:
+            tag = "misspelt"
+            lines[i] = l[:st] + ms[1] + l[st + len(m0.group(0)):]
+        else:
+            lines[i] = l[:st] + r.choice([b"x", b"_"]) + l[st:] if r.random() < 0.5 else l[:st + 1] + b"Q" + l[st + 1:]
+            if lines[i][st:].split()[:1] and lines[i][st:].split()[0].lower() in set(k.lower().encode() for k in keys):
+                tag = "valid"
     elif m < 0.94:
         tag = "brace"
         lines.insert(r.randint(0, len(lines)), r.choice([b"}", b"{", b"}{", b"x {", b"} x"]))
@@ -289,6 +324,18 @@ NESTED = [
     ("colvarsTrajFrequency", "I"),
     ("indexFile", "S"),
 ]
+
+
+def _all_keys(items):
+    out = set()
+    for k, v in items:
+        out.add(k.lower().encode())
+        if isinstance(v, list):
+            out |= _all_keys(v)
+    return out
+
+
+NESTED_ALL_KEYS = _all_keys(NESTED)
 
 
 def nested_schema_str(items):
@@ -348,7 +395,12 @@ def gen_nested_case(r):
         i = r.choice(cand)[0]
         l = lines[i]
         st = len(l) - len(l.lstrip())
-        lines[i] = l[:st + 1] + b"Q" + l[st + 1:] if r.random() < 0.5 else l[:st] + b"x" + l[st:]
+        m0 = re.match(rb"[A-Za-z_][A-Za-z0-9_]*", l[st:])
+        ms = misspell(r, m0.group(0), NESTED_ALL_KEYS) if m0 else None
+        if ms:
+            lines[i] = l[:st] + ms[1] + l[st + len(m0.group(0)):]
+        else:
+            lines[i] = l[:st + 1] + b"Q" + l[st + 1:] if r.random() < 0.5 else l[:st] + b"x" + l[st:]
     elif m < 0.75:
         tag = "wrong-level"
         # a leaf line of one level moved to another level where that keyword does not exist
